@@ -12,7 +12,7 @@ FLAVORS = ["asan"]
 RULE = ("6 baseline scenarios (3 ticks each) that together configure every core plugin (all 7 detectors + dump_cgroup_overview, the five kill "
         "plugins wet and recursive, senpai in both modes, a ruleset-level cgroup, the root cgroup '/') plus a probe plugin; fault spaces: "
         "F1 every (cgroup, control file) x {absent, empty, unreadable(EACCES)}; F2 each key removed from /proc/vmstat, /proc/meminfo, "
-        "memory.stat, and /proc/swaps, meminfo, vmstat, pressure files absent/empty/malformed; F3 directory entries without d_type; F4 for "
+        "memory.stat, and /proc/swaps, meminfo, vmstat, pressure files absent/empty/malformed; F3 directory entries without d_type; F6 write(2) on each writable control file / the kmsg sink failing with EBUSY, EINTR (1 and 3 times), ENOSPC, ENODEV, EAGAIN or short, xattr reads failing with EIO/EACCES/ENOTSUP/ENODEV, trusted.* xattr writes refused; F4 for "
         "every index k of the tick's file-access sequence (open/openat/fopen/faccessat/fgetxattr as seen at the libc boundary) x every "
         "cgroup x {remove, remove+re-create}; F5 seeded multi-faults. One process per case under ASan+UBSan+_GLIBCXX_ASSERTIONS. The run "
         "must finish all ticks with no sanitizer report, signal, abort, hang or exception out of Oomd::run(); absent/unreadable files must "
@@ -174,6 +174,14 @@ def fault_cases(seed, tier):
                 yield mk(bi, "F2", {"cg": rel, "file": fn, "garbled": txt[:20]}, ticks=[dict(t, ops=t["ops"] + [{"op": "write", "cg": rel, "file": fn, "text": txt}]) for t in scn["ticks"]])
         # F3
         yield mk(bi, "F3", {"dtype": "unknown"}, dtype_unknown=True)
+        # F6: write(2) on a control file fails / is interrupted / is short; xattr reads fail
+        for fn in ("memory.high", "memory.high.tmp", "memory.reclaim", "cgroup.kill", "cgroup.freeze", "swappiness", "kmsg"):
+            for f in ({"errno": "EBUSY"}, {"errno": "EINTR", "count": 1}, {"errno": "EINTR", "count": 3}, {"errno": "ENOSPC"}, {"errno": "ENODEV"}, {"short": True}, {"errno": "EAGAIN", "count": 2}):
+                yield mk(bi, "F6", dict(file=fn, **f), write_faults=[dict(file=fn, **f)])
+        for en in ("EIO", "EACCES", "ENOTSUP", "ENODEV"):
+            yield mk(bi, "F6", {"fgetxattr": en}, xattr_get_errno=en)
+        for xf in ("EPERM", "ENOTSUP"):
+            yield mk(bi, "F6", {"setxattr_trusted": xf}, xattr_fail=xf)
     # F4: vanish / re-create at access index k
     pts = []
     for bi in (use if quick else range(len(bases))):
